@@ -299,6 +299,44 @@ def directed(rng):
              "max_power": round(rating * 0.5, 2)}]
         js["scenario"]["core_standing_time"] = {"times": [{"start": [22, 0], "end": [5, 0]}], "no_drive_days": [6]}
         out.append((js, "schedule", {"LOAD_STRAT": rng.choice(["collective", "individual"]), "ALLOW_NEGATIVE_SOC": True}))
+    # D9: overdue vehicles - still plugged in at/after their estimated time of departure (the real departure comes later or
+    # never), several of them behind one tight connector, stations rated below the vehicle curve (round-3 seeds C04-s7, C05-s8)
+    for k9 in range(3):
+        n9 = rng.choice([6, 8])
+        iv = rng.choice([15, 60])
+        start = datetime.datetime(2023, 1, 2, 8, 0)
+        lim = rng.choice([10, 16])
+        fixed = rng.choice([0, 2, 3])
+        nv = rng.choice([2, 3])
+        js = {"scenario": {"start_time": scen.iso(start), "interval": iv, "n_intervals": n9},
+              "components": {
+                  "vehicle_types": {"car": {"name": "car", "capacity": rng.choice([40, 60]), "charging_curve": [[0, 22], [1, 22]],
+                                            "min_charging_power": 0, "battery_efficiency": 0.95}},
+                  "vehicles": {}, "charging_stations": {},
+                  "grid_connectors": {"GC1": {"max_power": lim, "cost": {"type": "fixed", "value": 0.3}}},
+                  "batteries": {}, "photovoltaics": {}},
+              "events": {"fixed_load": {}, "local_generation": {}, "grid_operator_signals": [], "vehicle_events": []}}
+        if fixed:
+            js["events"]["fixed_load"]["building"] = {"start_time": scen.iso(start), "step_duration_s": iv * 60, "grid_connector_id": "GC1",
+                                                      "values": [fixed] * n9}
+        for i in range(nv):
+            # estimated departure before the start (k9 = 0), or during the run while the real departure event comes later / never
+            etd = start + datetime.timedelta(minutes=iv * (rng.choice([-4, -2]) if k9 == 0 else rng.choice([1, 2])))
+            js["components"]["vehicles"]["car_%d" % i] = {"vehicle_type": "car", "connected_charging_station": "CS_%d" % i,
+                                                          "estimated_time_of_departure": scen.iso(etd), "desired_soc": 1.0,
+                                                          "soc": rng.choice([0.1, 0.2])}
+            js["components"]["charging_stations"]["CS_%d" % i] = {"max_power": 11, "min_power": 0, "parent": "GC1"}
+        if k9 == 2:
+            js["events"]["vehicle_events"].append({"signal_time": scen.iso(start), "start_time": scen.iso(start + datetime.timedelta(minutes=iv * (n9 - 1))),
+                                                   "vehicle_id": "car_0", "event_type": "departure",
+                                                   "update": {"estimated_time_of_arrival": scen.iso(start + datetime.timedelta(days=2))}})
+        for st in ("greedy", "balanced", "distributed", "peak_shaving", "balanced_market"):
+            o = {}
+            if st in ("greedy", "balanced", "distributed") and k9 == 1:
+                o["CONCURRENCY"] = 0.5
+            if st == "peak_shaving" and k9 == 1:
+                o["perfect_foresight"] = False
+            out.append((js, st, o))
     return out
 
 
